@@ -75,7 +75,7 @@ EXPORT bool _strisdigit_s_chk(const char *dest, rsize_t dmax,
         return (false);
     }
 
-    while (*dest) {
+    while (dmax && *dest) {
 
         if ((*dest < '0') || (*dest > '9')) {
             return (false);
